@@ -150,6 +150,8 @@ class Values:
         r = self.rng
         out = [calls.crystal_builtin(nm) for nm in (r.sample(self.crystal_names, min(len(self.crystal_names), max(1, n - 2))) if self.crystal_names else ["Si"])]
         out.append("cNULL")
+        if getattr(self, "_user_crystals", None) and r.random() < 0.7:
+            return out + list(self._user_crystals)       # the same generated crystals recur across functions (a program builds a crystal once and asks many things)
         al, be = r.uniform(60, 120), r.uniform(60, 120)
         ca, cb = math.cos(math.radians(al)), math.cos(math.radians(be))
         cg = ca * cb + r.uniform(-0.9, 0.9) * math.sqrt((1 - ca * ca) * (1 - cb * cb) - 0.05)
@@ -163,6 +165,8 @@ class Values:
             k = r.randrange(1, len(bad) - 1)
             bad[k], bad[-1] = bad[-1], bad[k]
         out.append(calls.crystal_user(cell, bad))
+        if not getattr(self, "_user_crystals", None):
+            self._user_crystals = out[-2:]
         return out
 
 
